@@ -1,9 +1,9 @@
 """Expression and call semantics of engine P (second half of the symbolic executor)."""
 import ast
-from z3 import (And, Or, Not, Implies, If, BoolVal, IntVal, RealVal, FreshConst, Const, ForAll, Exists, Select, Store, Int,
+from z3 import (And, Or, Not, Implies, If, BoolVal, IntVal, RealVal, Const, substitute, ForAll, Exists, Select, Store, Int,
                 IntSort, RealSort, BoolSort, is_true, is_false, simplify, ToReal, Function, MultiPattern, K)
 from .types import *
-from .engine import (Engine, Unsupported, PV, PRef, PTup, PNone, PMaybe, State, Obl, Outcome, str_const, Truthy, IntAsVal,
+from .engine import (FreshConst, FRESH_LOG, Engine, Unsupported, PV, PRef, PTup, PNone, PMaybe, State, Obl, Outcome, str_const, Truthy, IntAsVal,
                      FunctionSpec)
 
 RealAsVal = Function('RealAsVal', RealSort(), Val)
@@ -327,16 +327,13 @@ class FullEngine(Engine):
         if name == 'bool':
             t = self.cond(A[0], st); return PV(BOOL, BoolVal(t) if isinstance(t, bool) else t)
         if name == 'tqdm': return self.expr(A[0], st, hint)
-        if name in self.specs or (self.spec.cls and False):
+        ctors = [sp for sp in self.specs.values() if sp.constructs is not None and sp.constructs.name == name]
+        if ctors: return self.call_constructor(ctors, c, st)
+        if name in self.specs:
             return self.call_contract(self.specs[name], c, None, st)
         alt = self.resolve_function(name)
         if alt is not None: return self.call_contract(alt, c, None, st)
         raise Unsupported('call of ' + name)
-
-    def resolve_function(self, name):
-        for q, s in self.specs.items():
-            if q == name or q.endswith('.' + name) and s.cls is None: return s
-        return None
 
     def static_type_test(self, c, name, st):
         v = self.expr(c.args[0], st)
@@ -500,16 +497,14 @@ class FullEngine(Engine):
             else:
                 if ptypes[n] is None: raise Unsupported('non-None passed for %s of %s (overload declared None)' % (n, C.qual))
                 self.need_not_none(st, v, n)
+                if isinstance(ptypes[n], TList) and isinstance(getattr(v, 't', None), TObj): v = self.as_list(v)
                 old[n] = self.coerce(st, v, ptypes[n])
         for gname, mk in C.ghost.items(): old[gname] = mk(old)
         self.oblige(st, 'call', C.qual + '.pre', C.requires(old))
         if C.qual == self.fname and C.decreases is not None:
             self.oblige(st, 'call', C.qual + '.decreases', And(C.decreases(old) < C.decreases(self.old), C.decreases(old) >= 0))
         # exceptional exits of the callee are excluded by obligation unless the caller's contract allows the same exception
-        for exc, cond in C.raises.items():
-            if exc in self.spec.raises:
-                raise Unsupported('propagating exception %s from %s' % (exc, C.qual))
-            self.oblige(st, 'call', '%s.no-%s' % (C.qual, exc), Not(cond(old)))
+        self.callee_raises(C, old, st)
         new = {}
         for n in C.modifies:
             v = args[n]
@@ -522,6 +517,32 @@ class FullEngine(Engine):
         for label, g in C.ensures(old, new, res): st.pc.append(g)
         if rt is None: return PNone()
         return self.from_term(st, rt, res, frozen=False)
+
+    def callee_raises(self, C, old, st):
+        """exceptional exits of the callee: excluded by obligation, or propagated if the caller's contract lists the exception"""
+        for exc, cond in C.raises.items():
+            if exc in self.spec.raises:
+                bad = st.clone(); bad.pc.append(cond(old)); self.pending_raises.append((bad, exc)); st.pc.append(Not(cond(old)))
+            else:
+                self.oblige(st, 'call', '%s.no-%s' % (C.name, exc), Not(cond(old)))
+
+    def call_constructor(self, ctors, c, st):
+        """Class(arg): overload chosen by the static type of the argument; the new object is a fresh root"""
+        hint = ctors[0].params[1][1]
+        if c.args and isinstance(c.args[0], (ast.DictComp, ast.Dict)):
+            hint = next((sp.params[1][1] for sp in ctors if isinstance(sp.params[1][1], TDict)), hint)
+        arg = self.expr(c.args[0], st, hint=hint) if c.args else None
+        at = self.type_of(arg) if arg is not None else None
+        C = next((sp for sp in ctors if (len(sp.params) > 1 and sp.params[1][1] == at)), None)
+        if C is None: raise Unsupported('no constructor overload of %s for %r' % (ctors[0].constructs.name, at))
+        T = C.constructs
+        self.need_not_none(st, arg, 'constructor argument')
+        old = {C.params[1][0]: self.term(st, arg)}
+        self.oblige(st, 'call', C.name + '.pre', C.requires(old))
+        self.callee_raises(C, old, st)
+        obj = FreshConst(T.sort(), 'new'); new = {'self': obj, C.params[1][0]: old[C.params[1][0]]}
+        for label, g in C.ensures(old, new, None): st.pc.append(g)
+        return self.from_term(st, T, obj, frozen=False)
 
     def write_path_raw(self, st, ref, fresh):
         if ref.root in st.frozen: raise Unsupported('aliasing: callee mutates an escaped object (%s)' % st.frozen[ref.root])
